@@ -91,4 +91,54 @@ p("c19-p-copy-via-local", "C19", FA + "epsilon_nfa.py",
   "        other = other.copy()\n        for symbol in self._input_symbols:\n            other.add_symbol(symbol)\n        return self.get_intersection(other.get_complement())",
   "        mine = other.copy()\n        for symbol in self._input_symbols:\n            mine.add_symbol(symbol)\n        return self.get_intersection(mine.get_complement())")
 
+# ----------------------------------------------------------------------------- C03
+b("c03-inter-no-eclose-start-other", "C03", FA + "epsilon_nfa.py",
+  "            for st1 in other.eclose_iterable(other.start_states):", "            for st1 in other.start_states:",
+  "pair-coord-1")
+b("c03-inter-no-eclose-succ-self", "C03", FA + "epsilon_nfa.py",
+  "                for new_s0 in self.eclose_iterable(self(st0, symb)):", "                for new_s0 in self(st0, symb):",
+  "pair-coord-0")
+b("c03-inter-final-only-self", "C03", FA + "epsilon_nfa.py",
+  "        for st0 in self.final_states:\n            for st1 in other.final_states:\n                enfa.add_final_state(combine_state_pair(st0, st1))",
+  "        for st0 in self.final_states:\n            for st1 in other.states:\n                enfa.add_final_state(combine_state_pair(st0, st1))",
+  "final-pairs-depend-on-other")
+b("c03-inter-symbols-only-self", "C03", FA + "epsilon_nfa.py",
+  "        symbols = list(self.symbols.intersection(other.symbols))", "        symbols = list(self.symbols)",
+  "alphabet-depend-on-other")
+b("c03-difference-no-alphabet", "C03", FA + "epsilon_nfa.py",
+  "        other = other.copy()\n        for symbol in self._input_symbols:\n            other.add_symbol(symbol)\n",
+  "        other = other.copy()\n", "add_symbol-receiver")
+b("c03-difference-wrong-order", "C03", FA + "epsilon_nfa.py",
+  "        return self.get_intersection(other.get_complement())", "        return other.get_complement().get_intersection(other)",
+  "difference=self&complement")
+b("c03-reverse-keeps-start", "C03", FA + "epsilon_nfa.py",
+  "        for start in self._start_state:\n            enfa.add_final_state(start)\n        for final in self._final_states:\n            enfa.add_start_state(final)",
+  "        for start in self._start_state:\n            enfa.add_start_state(start)\n        for final in self._final_states:\n            enfa.add_final_state(final)",
+  "start->add_final_state")
+b("c03-reverse-no-eps", "C03", FA + "epsilon_nfa.py",
+  "            for state1 in self._transition_function(state0, Epsilon()):\n                enfa.add_transition(state1, Epsilon(), state0)\n",
+  "", "eps-edge.dst->add_transition#0")
+b("c03-reverse-keeps-direction", "C03", FA + "epsilon_nfa.py",
+  "                for state1 in self._transition_function(state0, symbol):\n                    enfa.add_transition(state1, symbol, state0)",
+  "                for state1 in self._transition_function(state0, symbol):\n                    enfa.add_transition(state0, symbol, state1)",
+  "edge.dst->add_transition#0")
+b("c03-union-uses-concat", "C03", FA + "regexable.py",
+  "        regex = regex0 | regex1\n", "        regex = regex0 + regex1\n", "combinator=Regex.union")
+b("c03-concat-drops-other", "C03", FA + "regexable.py",
+  "        regex = regex0 + regex1\n", "        regex = regex0 + regex0\n", "combinator=Regex.concatenate")
+b("c03-neg-is-reverse", "C03", FA + "epsilon_nfa.py",
+  "        return self.get_complement()\n\n    def get_intersection", "        return self.reverse()\n\n    def get_intersection",
+  "delegates-to:get_complement")
+b("c03-complement-on-dfa-only-symbols-of-trash", "C03", FA + "epsilon_nfa.py",
+  "                if not state_to:\n                    enfa.add_transition(state, symbol, trash)",
+  "                if state_to:\n                    pass\n                enfa.add_transition(state, symbol, trash)",
+  "completion-depends-on-delta")
+b("c03-trash-bare-ctor", "C03", FA + "epsilon_nfa.py",
+  "        trash = State(\"TrashNode\")", "        trash = State(\"Trash#Node\")", "unproven-name")
+p("c03-p-inter-locals", "C03", FA + "epsilon_nfa.py",
+  "        for st0 in self.eclose_iterable(self.start_states):\n            for st1 in other.eclose_iterable(other.start_states):",
+  "        starts0 = self.eclose_iterable(self.start_states)\n        starts1 = other.eclose_iterable(other.start_states)\n        for st0 in starts0:\n            for st1 in starts1:")
+p("c03-p-difference-inline", "C03", FA + "epsilon_nfa.py",
+  "        return self.get_intersection(other.get_complement())", "        comp = other.get_complement()\n        res = self.get_intersection(comp)\n        return res")
+
 VARIANTS = V
